@@ -40,5 +40,7 @@ pub mod frequencies;
 pub mod hll;
 pub mod tdigest;
 pub mod theta;
+#[cfg(feature = "verif-hooks")]
+pub mod verif;
 
 mod hash;
